@@ -697,6 +697,36 @@ func IntToBV(a *Term, w int) *Term {
 			return Extract(w-1, 0, x)
 		}
 	}
+	// int2bv_w is a ring homomorphism Z -> Z/2^w: a linear combination of bv2nat's of w-bit vectors (what
+	// lowerBVToInt produces for uint arithmetic that was converted to int and back) is rebuilt as bit-vector arithmetic
+	if l := linOf(a); len(l.ts) >= 1 && len(l.ts) <= 4 && w <= 32 {
+		all := true
+		for _, lt := range l.ts {
+			if lt.t.Op != "bv2nat" || lt.t.Args[0].W() != w {
+				all = false
+			}
+		}
+		if all {
+			mod := new(big.Int).Lsh(big.NewInt(1), uint(w))
+			acc := BVConst(new(big.Int).Mod(l.k, mod), w)
+			for _, lt := range l.ts {
+				c := new(big.Int).Mod(lt.c, mod)
+				term := lt.t.Args[0]
+				if c.Cmp(big.NewInt(1)) != 0 {
+					term = BVBin("bvmul", BVConst(c, w), term)
+				}
+				acc = BVBin("bvadd", acc, term)
+			}
+			return acc
+		}
+	}
+	// int2bv_w(x mod 2^k) == int2bv_w(x) for k >= w (int2bv is itself modulo 2^w)
+	if a.Op == "mod" && len(a.Args) == 2 && a.Args[1].C != nil && w < 63 {
+		m := a.Args[1].C
+		if m.Sign() > 0 && m.BitLen() > w && new(big.Int).And(m, new(big.Int).Sub(m, big.NewInt(1))).Sign() == 0 {
+			return IntToBV(a.Args[0], w)
+		}
+	}
 	return app(fmt.Sprintf("(_ int2bv %d)", w), BVSort(w), a)
 }
 
